@@ -1,4 +1,5 @@
 import PgBifrost.Proofs.BatcherTick
+import PgBifrost.Gen.MainOpts
 import PgBifrost.Proofs.BatcherTimed
 import PgBifrost.Gen.Conds
 /-!
@@ -195,5 +196,48 @@ theorem pressure_rule_as_in_source (cfg : Cfg) (s : State) (kept : List PKey) (t
   exact h.1.1.1
 
 end source
+
+/-- `main.go` fills every slot of the client, marshaller, partitioner and batcher configuration maps from the option of
+the SAME name (through `GetPartitionMethod` / `GetRoutingMethod` for the two named methods), each local used for it
+is assigned exactly once; and `app.New` reads each slot into a local that is assigned exactly once before it is
+handed on (`runner_wiring_as_modelled`, C01, has the constructor calls). From there on the values are followed at
+run time: the `plumbing` component reads back what the stages were built with. -/
+theorem options_reach_their_own_slot :
+    PgBifrost.Gen.MainOpts.slots = [
+      ("clientConfig", "config.VAR_NAME_CLIENT_BUFFER_SIZE", "config.VAR_NAME_CLIENT_BUFFER_SIZE"),
+      ("transportConfig", "flagName", "computed:getFlagValue(c.Generic(flagName))"),
+      ("transportConfig", "config.VAR_NAME_WORKERS", "config.VAR_NAME_WORKERS"),
+      ("transportConfig", "config.VAR_NAME_PARTITION_METHOD", "partitioner.GetPartitionMethod∘config.VAR_NAME_PARTITION_METHOD"),
+      ("transportConfig", "config.VAR_NAME_BATCHER_ROUTING_METHOD", "batcher.GetRoutingMethod∘config.VAR_NAME_BATCHER_ROUTING_METHOD"),
+      ("filterConfig", "\"whitelist\"", "computed:whitelist"),
+      ("filterConfig", "\"tablelist\"", "computed:tablelist"),
+      ("filterConfig", "\"regex\"", "computed:regex"),
+      ("marshallerConfig", "config.VAR_NAME_NO_MARSHAL_OLD_VALUE", "config.VAR_NAME_NO_MARSHAL_OLD_VALUE"),
+      ("partitionerConfig", "config.VAR_NAME_PARTITION_METHOD", "partitioner.GetPartitionMethod∘config.VAR_NAME_PARTITION_METHOD"),
+      ("partitionerConfig", "config.VAR_NAME_PARTITION_COUNT", "config.VAR_NAME_PARTITION_COUNT"),
+      ("batcherConfig", "config.VAR_NAME_BATCH_FLUSH_MAX_AGE", "config.VAR_NAME_BATCH_FLUSH_MAX_AGE"),
+      ("batcherConfig", "config.VAR_NAME_BATCH_FLUSH_UPDATE_AGE", "config.VAR_NAME_BATCH_FLUSH_UPDATE_AGE"),
+      ("batcherConfig", "config.VAR_NAME_BATCH_QUEUE_DEPTH", "config.VAR_NAME_BATCH_QUEUE_DEPTH"),
+      ("batcherConfig", "config.VAR_NAME_BATCHER_MEMORY_SOFT_LIMIT", "config.VAR_NAME_BATCHER_MEMORY_SOFT_LIMIT"),
+      ("batcherConfig", "config.VAR_NAME_BATCHER_ROUTING_METHOD", "batcher.GetRoutingMethod∘config.VAR_NAME_BATCHER_ROUTING_METHOD"),
+      ("batcherConfig", "config.VAR_NAME_BATCHER_TICK_RATE", "config.VAR_NAME_BATCHER_TICK_RATE"),
+      ("reporterConfig", "config.VAR_NAME_DD_HOST", "reassigned:config.VAR_NAME_DD_HOST"),
+      ("reporterConfig", "config.VAR_NAME_DD_TAGS", "computed:datadogTagsList")
+    ] ∧
+    PgBifrost.Gen.MainOpts.reads = [
+      ("batchFlushMaxAge", "batcherConfig", "config.VAR_NAME_BATCH_FLUSH_MAX_AGE", true),
+      ("batchFlushUpdateAge", "batcherConfig", "config.VAR_NAME_BATCH_FLUSH_UPDATE_AGE", true),
+      ("batchQueueDepth", "batcherConfig", "config.VAR_NAME_BATCH_QUEUE_DEPTH", true),
+      ("batcherMemorySoftLimit", "batcherConfig", "config.VAR_NAME_BATCHER_MEMORY_SOFT_LIMIT", true),
+      ("batcherRoutingMethod", "batcherConfig", "config.VAR_NAME_BATCHER_ROUTING_METHOD", true),
+      ("batcherTickRate", "batcherConfig", "config.VAR_NAME_BATCHER_TICK_RATE", true),
+      ("clientBufferSize", "clientConfig", "config.VAR_NAME_CLIENT_BUFFER_SIZE", true),
+      ("noMarshalOldValue", "marshallerConfig", "config.VAR_NAME_NO_MARSHAL_OLD_VALUE", true),
+      ("partMethod", "partitionConfig", "config.VAR_NAME_PARTITION_METHOD", true),
+      ("partPartitions", "partitionConfig", "config.VAR_NAME_PARTITION_COUNT", true),
+      ("regex", "filterConfig", "\"regex\"", true),
+      ("tablelist", "filterConfig", "\"tablelist\"", true),
+      ("whitelist", "filterConfig", "\"whitelist\"", true)
+    ] := ⟨rfl, rfl⟩
 
 end PgBifrost.Props.C16
